@@ -412,7 +412,13 @@ static void sec_tauf(Ctx& c, uint64_t) {
   std::string cls = std::string("f64/tauf/") + (es > 0 ? "oblate" : es < 0 ? "prolate" : "sphere") + (std::fabs(tau) > 1e8 ? "/near-pole" : std::fabs(tau) < 1e-8 ? "/near-equator" : "/mid");
   c.count(cls, vh::hmix(vh::hmix(4, es), tau));
   if (c.want_sample(cls)) c.sample(cls, J().f("tau", tau).f("es", es));
+  uint64_t p0 = vh::hook::panics();
   double tp = Math::taupf(tau, es), back = Math::tauf(tp, es);
+  // repo hook: the Newton iteration of tauf ran out of iterations (silent in a normal build)
+  if (vh::hook::panics() != p0) {
+    if (es < -2.83 || es > 0.995) c.event("tauf convergence failures (hook) at extreme eccentricity");
+    else c.viol("hook:C16/panic/tauf", "f64/tauf/convergence-failure", J().f("tau", tau).f("es", es).f("taup", tp));
+  }
   // definition in float128: taup = tau*sqrt(1+sig^2) - sig*sqrt(1+tau^2), sig = sinh(e*atanh(e*sin(phi))) (atan form for prolate)
   __float128 T = tau, E = es, t1 = hypotq(1, T), sph = T / t1;
   __float128 sig = sinhq(E > 0 ? E * atanhq(E * sph) : -E * atanq(E * sph));
